@@ -159,6 +159,28 @@ def build_unit(unit, repo, verus_dir):
     return tmpl, meta
 
 
+def extract_item(repo, spec):
+    """Verbatim copy of a brace-delimited item (struct / impl block) whose header matches `header` inside `within`."""
+    path = os.path.join(repo, spec["file"])
+    try:
+        text = open(path).read()
+    except OSError:
+        raise ExtractError(f"lost anchor: {spec['file']} missing")
+    s, e = find_item(text, spec.get("within"))
+    region = text[s:e]
+    ms = list(re.finditer(spec["header"], region, re.M))
+    if len(ms) != 1:
+        raise ExtractError(f"lost anchor: item header /{spec['header']}/ matched {len(ms)} times in {spec['file']}")
+    m = ms[0]
+    ob = region.find("{", m.end() - 1 if region[m.end() - 1] == "{" else m.end())
+    if ob < 0 or region[m.end():ob].strip() not in ("", "{"):
+        raise ExtractError(f"lost anchor: unexpected text after item header /{spec['header']}/")
+    cb = balanced(region, ob)
+    item = region[m.start():cb + 1]
+    return item, {"file": spec["file"], "header": m.group(0).strip(), "line": text[:s + m.start()].count("\n") + 1,
+                  "sha256": hashlib.sha256(item.encode()).hexdigest(), "bytes": len(item)}
+
+
 def build_kani_gen(spec, repo_copy):
     """Generated Kani sibling module: verbatim copies of functions that are nested inside other functions (and therefore
     not nameable from a harness).  Each is emitted as `pub(crate) ` + its signature text + `{` + its body + `}`."""
@@ -172,6 +194,14 @@ def build_kani_gen(spec, repo_copy):
         body, m = extract_body(repo_copy, f)
         out.append("\n// from %s line %d\npub(crate) %s {%s}\n" % (m["file"], m["line"], m["signature"], body))
         meta["functions"].append(m)
+    meta["items"] = []
+    for it in spec.get("items", []):
+        item, m = extract_item(repo_copy, it)
+        out.append("\n// from %s line %d (verbatim)\n%s\n" % (m["file"], m["line"], item))
+        meta["items"].append(m)
+    # harness modules that must see the private fields of the copied items are children of this generated module
+    for ch in spec.get("child_modules", []):
+        out.append('\n#[path = "%s"] pub(crate) mod %s;\n' % (os.path.join(os.path.dirname(os.path.dirname(os.path.abspath(__file__))), "kani", ch["file"]), ch["name"]))
     meta["drops"] = spec.get("drops", [])
     return "".join(out), meta
 
